@@ -17,9 +17,10 @@ pub mod c14;
 pub mod c15;
 pub mod c16;
 pub mod c17;
+pub mod c18;
 
 pub fn all_ids() -> Vec<&'static str> {
-    vec!["C01", "C02", "C03", "C04", "C05", "C06", "C07", "C08", "C09", "C10", "C11", "C13", "C14", "C15", "C16", "C17"]
+    vec!["C01", "C02", "C03", "C04", "C05", "C06", "C07", "C08", "C09", "C10", "C11", "C13", "C14", "C15", "C16", "C17", "C18"]
 }
 
 pub fn build(id: &str) -> Option<Property> {
@@ -40,6 +41,7 @@ pub fn build(id: &str) -> Option<Property> {
         "C15" => Some(c15::property()),
         "C16" => Some(c16::property()),
         "C17" => Some(c17::property()),
+        "C18" => Some(c18::property()),
         _ => None,
     }
 }
